@@ -73,6 +73,7 @@ type c5Line struct {
 	Self   c5Self  `json:"self"`
 	Claim  int64   `json:"claim"`
 	Note   string  `json:"note"`
+	Live   int     `json:"live"` // 1: computed on the LIVE channel object (not judged differently)
 }
 
 const c5Height = 100 // height hint / "confirmation height" handed to the resolutions
@@ -478,7 +479,7 @@ func TestVerifC05Close(t *testing.T) {
 	out := verifkit.MustWriter(verifkit.Env("VERIF_OUT", ".") + "/trace.ndjson")
 	defer out.Close()
 
-	nsteps, nchecks := 0, 0
+	nsteps, nchecks, nlive := 0, 0, 0
 	for fi, f := range files {
 		evs, err := verifkit.ReadNDJSONInto[vEv](f)
 		if err != nil {
@@ -514,10 +515,22 @@ func TestVerifC05Close(t *testing.T) {
 				nonOpener: int64(bob.channelState.LocalChanCfg.DustLimit)},
 			St: map[string]vParty{}, Sh: map[string]vParty{}, SigOk: map[string]int{}})
 
+		liveClose := func(s *vSide) int {
+			if s.lc.channelState.LocalCommitment.CommitHeight == 0 {
+				return 0
+			}
+			ln := cc.closeLocal(s.name, s.lc)
+			ln.Live = 1
+			out.Emit(ln)
+			s.lc.ResetState() // ForceClose marks the object closed (coop close only looks at it)
+			return 1
+		}
+		lastOK := false
 		for _, e := range evs[1:] {
 			me := sides[e.P]
 			peer := sides[other[e.P]]
 			var err error
+			lastOK = false
 			txeq, relh := -1, int64(-1)
 			pop := func() vMsg {
 				if len(peer.out) == 0 {
@@ -731,7 +744,22 @@ func TestVerifC05Close(t *testing.T) {
 					nchecks++
 				}
 			}
+			// ForceClose() of the LIVE object in the one window where its memory is
+			// ahead of the database: a new commitment has been received and verified
+			// but the old one is not revoked yet.  What must be broadcast (and what
+			// the summary must resolve) is still the durable commitment disk[p].lc.
+			if name == "RecvSig" {
+				nlive += liveClose(me)
+			}
+			lastOK = true
+		}
+		// ... and of both live objects where the behaviour ends, whatever state that is
+		if lastOK {
+			for _, n := range []string{"A", "B"} {
+				nlive += liveClose(sides[n])
+			}
 		}
 	}
-	t.Logf("executed %d behaviours, %d steps, %d close checks", len(files), nsteps, nchecks)
+	t.Logf("executed %d behaviours, %d steps, %d close checks on reloaded + %d on live channels", len(files), nsteps,
+		nchecks, nlive)
 }
